@@ -190,6 +190,8 @@ class Fn:
         blk = self.blocks[b]
         if blk['term'][0] != 'switch':
             return False
+        if blk.get('try_exit'):
+            return True
         src = None
         for s_ in blk['stmts']:
             if s_[0] == 'assign' and s_[2][0] == 'discr':
